@@ -28,6 +28,7 @@ type Env struct {
 	pkg     string
 	guard   string
 	fvBind  map[string]ssa.Value // call of a closure: captured-variable name -> bound value (closurefv.go)
+	fvTerms map[string]SV        // captproj.go (x-c17): captured-variable name -> term (call through a fnfield)
 	ownFn   bool                 // clause of the function under verification (captured variables resolvable)
 	bound   map[string]bool      // names bound by quantifiers / let / macro parameters (they shadow Go locals)
 	from    *ssa.BasicBlock      // effects.go: `loop k ensures`: locals are resolved at the end of this block
@@ -659,6 +660,8 @@ func (e *Env) call(n ECall) SV {
 		return e.fnApply(n) // fnapply.go (w-c05)
 	case "lastcall":
 		return e.lastCall(n)
+	case "captured":
+		return e.capturedSpec(n) // captproj.go (x-c17)
 	case "fnval":
 		return e.fnvalSpec(n) // fnis.go
 	case "prev":
